@@ -12,8 +12,10 @@
   secret, exponents, stored messages, question) and the resend state holds no text unless it is in
   the branch `mayRetransmit = .exact` (texts sent under required encryption before any session existed,
   still waiting for one); `endSession_resend_state`: the same in terms of the state before the call;
-  `processDisconnectedTLV_run`: after the peer's
-  disconnect `keys = {}`, `smp = {}`, `ake = none`. `send_requireEncryption` + the resend bookkeeping
+  `processDisconnectedTLV_run` (repaired code): after the peer's
+  disconnect `smp = {}`, `ake = none`, and of the key context only the MAC keys to be revealed remain
+  (`keys = { oldMACKeys := old reveal queue ++ keys of the old MAC history }`): DH keys, key ids,
+  counters and MAC history are gone. `send_requireEncryption` + the resend bookkeeping
   compared op by op (snapshot field rs): retained texts are the queued ones or the single last one.
   Heap level (what a model cannot see: copies, aliases, dropped-but-not-zeroed buffers): the `mem`
   profile scans the object graph reachable from the real *Conversation after every API call for the
